@@ -306,7 +306,7 @@ def enfOp (st : EnfSt) (ts : List String) : Option (EnfSt × String × String ×
               (match ep.loadText true fa.text with
                | none => some (st, "none", "-", false)
                | some (ep', ok) =>
-                   some ({ st with enf := some ep', fa := some { fa with filtered := false },
+                   some ({ st with enf := some ep', fa := some { fa with filtered := if ok then false else fa.filtered },
                                    histOk := if ok then stateOk ep'.base && ep'.base.autoBuild else st.histOk }, (if ok then "ok" else "err"), "-", true))
           | none =>
           let (ep', ok) := ep.loadPolicy
